@@ -338,7 +338,11 @@ def main(chk):
                 else:
                     n_exp = sum(len(d["notes"]) for d in den)
                     n_got = sum(len(pp.notes) for pp in perf2.performedparts)
-                    if n_exp != n_got:
+                    # (merging puts all tracks into one: notes of different tracks on the same channel and pitch that
+                    #  overlap or touch can then no longer be told apart - outside what a track can express; not judged)
+                    alln = sorted((x["ch"], x["pitch"], x["on"], x["off"]) for d in den for x in d["notes"])
+                    clash = any(a[0] == b[0] and a[1] == b[1] and b[2] <= a[3] for a, b in zip(alln, alln[1:]))
+                    if n_exp != n_got and not clash:
                         report("load_written_merged.note_count", {"expected": n_exp, "got": n_got})
         else:
             _, mf, merge = info
